@@ -143,10 +143,11 @@ pub fn outcome(r: Result<Value, String>) -> Value {
 pub struct Log {
     w: BufWriter<std::fs::File>,
     pub n: u64,
+    path: String,
 }
 impl Log {
     pub fn create(path: &str) -> Self {
-        Log { w: BufWriter::new(std::fs::File::create(path).expect("create trace file")), n: 0 }
+        Log { w: BufWriter::new(std::fs::File::create(path).expect("create trace file")), n: 0, path: path.to_string() }
     }
     pub fn emit(&mut self, mut ev: Map<String, Value>) {
         self.n += 1;
@@ -163,6 +164,18 @@ impl Log {
     }
     pub fn finish(mut self) -> u64 {
         self.w.flush().unwrap();
+        // which rarely taken branches of the library this driver run went through (hook: integer/src/verif_probe.rs);
+        // a driver with a summary of its own (c01 --probe-search) has written the file already
+        #[cfg(dashu_probe)]
+        {
+            let side = format!("{}.probe", self.path);
+            if !std::path::Path::new(&side).exists() {
+                let h = dashu_int::verif_probe::hits();
+                let hits: Vec<Value> = dashu_int::verif_probe::NAMES.iter().zip(h.iter()).map(|(n, v)| json!({"name": n, "n": v})).collect();
+                let _ = std::fs::write(&side, json!({"hits": hits}).to_string());
+            }
+        }
+        let _ = &self.path;
         self.n
     }
 }
